@@ -339,6 +339,10 @@ class Oracles:
         app = getattr(self.w, 'driver_app', None)
         if app is None or 'driver' not in app:
             return
+        if getattr(self, '_mem_app', None) is not app:
+            # a new driver incarnation: its memory was rebuilt from the database
+            self._mem_app = app
+            self.mem_mismatch.clear()
         try:
             mem = app['driver'].inst_coll_manager.name_instance
         except Exception:  # pylint: disable=broad-except
